@@ -43,7 +43,7 @@ def plan(tier, seed):
 
 
 def thresholds(tier):
-  t = {"contract_evaluations": 150000, "exhaustive_cases": 200000, "cells_seen": 90, "sim_contract_evaluations": 5000}
+  t = {"contract_evaluations": 150000, "exhaustive_cases": 200000, "cells_seen": 90, "sim_contract_evaluations": 5000, "result_mutation_probes": 10000}
   if tier == "thorough":
     t.update({"contract_evaluations": 20000000, "sim_contract_evaluations": 100000})
   return t
@@ -87,6 +87,33 @@ def boundary_ints(rng, n):
 def drive_pair(x, y):
   for name, f in OPS.items():
     _try(f, x, y)
+
+
+def drive_pair_history(sh, x, a, y, b):
+  """results are kept and updated IN PLACE (as a testbench or FL model does with a stored comparison / sum), then the same
+  operation is repeated: operands must be untouched and the repeated result must equal the first one"""
+  from pymtl3.datatypes import Bits
+  for i, (name, f) in enumerate(OPS.items()):
+    r = _try(f, x, y)
+    if not isinstance(r, Bits):
+      continue
+    old, rn = int(r), r.nbits
+    how = (i + a + b) % 3
+    try:
+      if how == 0: r @= old ^ ((1 << rn) - 1)
+      elif how == 1: r[0] = 1 - (old & 1)
+      else:
+        r <<= old ^ ((1 << rn) - 1); r._flip()
+    except Exception as e:
+      sh.violation("in-place-update-of-an-operator-result-raised", {"op": name, "how": how, "error": repr(e)[:200]}); continue
+    sh.count("result_mutation_probes")
+    if int(x) != a or (isinstance(y, Bits) and int(y) != b):
+      sh.violation("operator-result-aliases-an-operand", {"op": name, "n": x.nbits, "a": hex(a), "b": hex(b), "how": how}); return
+    r2 = _try(f, x, y)
+    if not isinstance(r2, Bits) or int(r2) != old or r2 is r:
+      sh.violation("operator-result-changed-after-an-earlier-result-was-updated-in-place",
+                   {"op": name, "n": x.nbits, "a": hex(a), "b": hex(b), "first": hex(old), "again": None if not isinstance(r2, Bits) else hex(int(r2)),
+                    "same_object": r2 is r, "how": ["@=", "[0]=", "<<= + _flip"][how]}); return
 
 
 def drive_store(Bits, n, v):
@@ -155,6 +182,8 @@ def run_rand(sh):
         b = rng.choice([0, 1, n - 1, n, n + 1, 2 * n]) & ((1 << n) - 1)   # shift amounts around n
       y = _mk(rng, n, b)
       drive_pair(x, y); done += len(OPS)
+      if rng.random() < 0.25:
+        drive_pair_history(sh, x, a, y, b); done += 2 * len(OPS)
       sh.fp("same", n if n in WCLASSES else "other", a == 0, b == 0)
       if case <= 2:
         sh.sample({"stream": "random", "n": n, "a": hex(a), "b": hex(b), "ops": "all 16 binary operators"})
